@@ -24,6 +24,8 @@ def main(tier, replay=None):
     designlevel.codec_design(rep, "wide leaves, depth1", depth=1, caps=(1, 2), leafset="wide", evo=0,
                              modes=("enc", "dec"),
                              invariants=("InBounds", "EncRefines", "DecRefines", "ChunkShape"), properties=())
+    # unbounded: the chunk arithmetic for every width and stream position (Apalache, inductive invariant)
+    designlevel.copy_loop_unbounded(rep)
     types = gen.ufull_leaf_types()
     pycases, progs = [], {}
     with common.Scratch("c14") as scratch:
